@@ -6,7 +6,7 @@ Line protocol of the C11 driver (stateful: one stream writer at a time).
   cfg <chunk> <0|1>                      spill threshold, temp file creatable
   new <hex prolog> <hex pre> <nStyles>   NewStreamWriter
   setrow <hex cell> <opts> <item>*       SetRow; opts = `-` | style,h4,outline,hidden
-        item = n | i<int> | b0 | b1 | f<hex text> | s<hex> | R<hex xml> | RE | C<style>,<hex formula>,<item>
+        item = n | i<int> | b0 | b1 | T<0|1>;<hex text>;<nf22 id> (time) | f<hex text> | s<hex> | R<hex xml> | RE | C<style>,<hex formula>,<item>
   merge <hex> <hex> | colwidth a b w4 <hex pre> | colstyle a b st <hex pre> | panes <0|1> <hex pre>
   reader | flush <hex tableParts> <hex field 0> … <hex field 42>   (per-field rendering of xlsxWorksheet)
   bwnew <n> | bwrow <n> | bwflush        the buffered writer on sizes only (large volumes)
@@ -40,6 +40,13 @@ partial def parseVal (s : List Char) : Option Val :=
   | 'f' :: r => (unhexS (String.ofList r)).map Val.num
   | 's' :: r => (unhexS (String.ofList r)).map Val.str
   | ['R', 'E'] => some .richErr
+  | 'T' :: r =>
+    match (String.ofList r).splitOn ";" with
+    | [n, t, nf] =>
+      match unhexS t, nf.toInt? with
+      | some t, some nf => some (.time (n = "1") t nf nf)
+      | _, _ => none
+    | _ => none
   | 'R' :: r => (unhexS (String.ofList r)).map Val.rich
   | _ => none
 
